@@ -467,6 +467,46 @@ def check_total_helpers(repo: Repo, rep: Report, tier: str):
     rep.ok("C19.total-helpers", "fickling/analysis path", f"{len(scope)} functions scanned: {n_sites} computed-key lookup(s) in literal tables", "")
 
 
+def check_report_total(repo: Repo, rep: Report):
+    """Two ways an analysis or the report can raise although every finding is well-formed:
+
+    * ordering findings by a key that includes `.trigger`: triggers are a code fragment (str) for some analyses, an opcode
+      position (int) for others and None for the rest - Python refuses to order str against int as soon as two findings tie
+      on the earlier key components;
+    * a bare `next(<generator>)`: when nothing matches it raises StopIteration, which inside a generator function (every
+      `analyze`) becomes RuntimeError."""
+    kinds = set()
+    for f in repo.functions.values():
+        if not f.module.name.startswith("fickling"):
+            continue
+        for c in body_walk(f.node):
+            if _is_result_ctor(repo, f, c):
+                trig = kwarg(c, "trigger", 3)
+                kinds.add("none" if trig is None else value_kind(repo, f, trig))
+    hetero = len({k for k in kinds if k in ("int", "str", "none", "node", "opcode", "tuple-ok", "bytes")}) > 1
+    scope = [f for f in repo.functions.values() if f.module.name in ("fickling.analysis", "fickling.ml", "fickling.loader")]
+    n = 0
+    for f in scope:
+        is_gen = any(isinstance(x, (ast.Yield, ast.YieldFrom)) for x in body_walk(f.node))
+        for c in body_walk(f.node):
+            if not isinstance(c, ast.Call):
+                continue
+            fn = dotted(c.func) or ""
+            keyf = next((k.value for k in c.keywords if k.arg == "key"), None)
+            if (fn in ("sorted", "min", "max") or fn.endswith(".sort")) and keyf is not None and any(isinstance(x, ast.Attribute) and x.attr == "trigger" for x in ast.walk(keyf)):
+                n += 1
+                if hetero:
+                    rep.bad("C19.report", f.qualname, "orders-heterogeneous-triggers", f"`{src(c)[:90]}` orders findings by a key that contains `.trigger`; triggers are {sorted(kinds)} across the analyses, and Python raises TypeError when it has to order a str against an int (two findings that tie on the preceding key components): the report, and with it check_safety and the checked loader, then raise", f.file, c.lineno)
+            if fn == "next" and len(c.args) == 1 and not c.keywords:
+                n += 1
+                guarded = any(isinstance(t, ast.Try) and any(c is y for b in t.body for y in ast.walk(b)) and any(h.type is None or any(nm in src(h.type) for nm in ("StopIteration", "RuntimeError", "Exception")) for h in t.handlers) for t in ast.walk(f.node))
+                arg = c.args[0]
+                never_empty = isinstance(arg, ast.Call) and dotted(arg.func) == "iter" and arg.args and isinstance(arg.args[0], ast.Call) and isinstance(arg.args[0].func, ast.Attribute) and arg.args[0].func.attr in ("split", "rsplit", "splitlines", "partition")
+                if not guarded and not never_empty:
+                    rep.bad("C19.report", f.qualname, "bare-next", f"`{src(c)[:90]}` has no default and no handler: when nothing matches it raises StopIteration{', which inside this generator function becomes `RuntimeError: generator raised StopIteration`' if is_gen else ''} - the analysis raises instead of producing its finding", f.file, c.lineno)
+    rep.ok("C19.report", "fickling.analysis / fickling.ml", f"{len(scope)} functions scanned: {n} ordering-by-trigger / bare-next site(s)", "", nontrivial=False)
+
+
 def check_opcode_properties(repo: Repo, rep: Report):
     """Properties of opcode objects that the analyses read must be total over what the parser can put into the opcode:
     an exception raised by `opcode.<prop>` inside an analysis escapes check_safety although the pickle decompiles (the
@@ -532,6 +572,7 @@ def run(rep: Report, tier: str):
     check_yields(repo, rep)
     check_result_shape(repo, rep)
     check_report(repo, rep)
+    check_report_total(repo, rep)
     check_node_shape(repo, rep)
     check_total_helpers(repo, rep, tier)
     check_opcode_properties(repo, rep)
